@@ -1,9 +1,11 @@
 (* Combination theorems for C04, part 8: the run-time predicate holds_C04 (Run/RunAdapt.v), evaluated on the
    model's own views, is true — theorem and run-time check coincide: a false holds_C04 on a harness case
-   whose views correspond to the model's can only come from a creation request violating W4. *)
+   whose views correspond to the model's can only come from a creation request violating W4.
+   (The RUpdate case uses update_view_full of Proofs/UpdateViewProofs.v: judged at every position, also
+   after a dropped ignore-failure update.) *)
 From Coq Require Import String Ascii List Bool ZArith Arith Lia.
 From NRI Require Import Base.Strs Base.Assoc Model.Types Model.Result Spec.Apply Spec.AbsLedger Run.RunAdapt
-  Proofs.CombineWf Proofs.CombineProofs Proofs.CombineView Proofs.CombineUpdate.
+  Proofs.CombineWf Proofs.CombineProofs Proofs.CombineView Proofs.CombineUpdate Proofs.UpdateViewProofs.
 Import ListNotations.
 Open Scope string_scope.
 Open Scope list_scope.
@@ -32,6 +34,5 @@ Proof.
     destruct (view_is_prefix_result_w4 c0 (ac_resps case) i v Hw Hn) as [x [-> Hx]].
     exact Hx.
   - rewrite Hv. apply views_ok_nth. intros i v Hn. cbn [Nat.add].
-    destruct (some_dropped None (firstn i (ac_resps case))) eqn:Hd; [reflexivity|]. cbn [orb].
-    destruct (update_view id req (ac_resps case) i v Hd Hn) as [x [-> Hx]]. exact Hx.
+    destruct (update_view_full id req (ac_resps case) i v Hn) as [x [-> Hx]]. exact Hx.
 Qed.
